@@ -70,7 +70,7 @@ def client_loop(cid, cmd_fd, ack_fd, root, errp):
             tail = (tail + data)[-4096:] if not data else tail[-200:] + data
             if marker.encode() in tail:
                 return True
-            if time.time() - t0 > 30:
+            if time.time() - t0 > 10:
                 return False
             time.sleep(0.0005)
 
@@ -145,7 +145,7 @@ class Acks:
         self.buf = b""
         os.set_blocking(fd, False)
 
-    def get(self, timeout=60):
+    def get(self, timeout=25):
         t0 = time.time()
         while b"\n" not in self.buf:
             try:
@@ -289,12 +289,19 @@ def main():
         client_main(sys.argv[2:])
         return
     scratch = sys.argv[1]
+    hangs = 0
     for ln in sys.stdin:
         if not ln.strip():
             continue
         sc = json.loads(ln)
+        if hangs >= 2:  # early stop: do not wait for the same time-out again and again
+            sys.stdout.write(json.dumps({"skipped": "early stop after 2 time-outs in this stream"}) + "\n")
+            sys.stdout.flush()
+            continue
         try:
             res = run_scenario(sc, scratch)
+            if res.get("flags"):
+                hangs += 1
         except Exception as e:  # noqa
             import traceback
             res = {"harness_error": "%s: %s" % (type(e).__name__, e), "tb": traceback.format_exc()[-800:]}
